@@ -56,6 +56,10 @@ pub struct Round {
     pub timeout: Timeout,
     /// bytes of output queued before the poll (0 = none); the peer is stalled while > 4096
     pub pending_output: usize,
+    /// (finite timeouts, pending_output > 4096) the peer stays stalled until the events of this
+    /// round have been delivered: they must be delivered while output is still pending
+    #[serde(default)]
+    pub hold_stall: bool,
 }
 
 #[derive(Clone, Copy, Debug, PartialEq, Eq, Serialize, Deserialize)]
@@ -73,6 +77,9 @@ pub enum Exit {
     Signal(u8),
     /// the master side is closed before the terminal object is dropped
     MasterClosed,
+    /// a termination signal (0 TERM, 1 INT, 2 QUIT) arrives while the terminal object is being
+    /// released: raised at schedule point `point` of the first poll iteration inside drop
+    SignalInDispose { which: u8, point: u8 },
 }
 
 #[derive(Clone, Debug, Serialize, Deserialize)]
@@ -150,15 +157,19 @@ fn run_session(case: &Case) -> Result<(Pass, bool), Fail> {
 
     for (ri, round) in case.rounds.iter().enumerate() {
         // optional pending output
+        let held = round.hold_stall && round.pending_output > 4096 && round.timeout != Timeout::Infinite;
         if round.pending_output > 0 {
             if round.pending_output > 4096 {
-                // the peer stops draining for 30 ms (it eventually drains: assumption of the property)
+                // the peer stops draining for 30 ms (it eventually drains: assumption of the
+                // property), or -- held stall -- until this round's events have been delivered
                 sess.peer.state.stalled.store(true, Ordering::Relaxed);
-                let st = sess.peer.state.clone();
-                std::thread::spawn(move || {
-                    std::thread::sleep(Duration::from_millis(30));
-                    st.stalled.store(false, Ordering::Relaxed);
-                });
+                if !held {
+                    let st = sess.peer.state.clone();
+                    std::thread::spawn(move || {
+                        std::thread::sleep(Duration::from_millis(30));
+                        st.stalled.store(false, Ordering::Relaxed);
+                    });
+                }
             }
             let data = vec![b'.'; round.pending_output];
             term.write_all(&data).map_err(|e| Fail::new("session/write-error", format!("{e:?}")))?;
@@ -263,7 +274,9 @@ fn run_session(case: &Case) -> Result<(Pass, bool), Fail> {
             let _ = h.join();
         }
         unix_verif_hooks::set_point_hook(None);
-        sess.peer.state.stalled.store(false, Ordering::Relaxed);
+        if !held {
+            sess.peer.state.stalled.store(false, Ordering::Relaxed);
+        }
         if matches!(round.place, Place::At { .. }) && fired.get() {
             inside_poll = true;
         }
@@ -292,6 +305,56 @@ fn run_session(case: &Case) -> Result<(Pass, bool), Fail> {
         if !fired.get() {
             (action.borrow_mut())();
             fired.set(true);
+        }
+        // held stall: the peer does not drain, so output stays pending; the events of this round
+        // must be delivered all the same by polls with a finite timeout (typed bytes get the
+        // same 2 s to travel through the kernel as below)
+        if held {
+            let satisfied = |events: &[TerminalEvent]| match &round.what {
+                What::Wake { .. } => events.iter().any(|e| matches!(e, TerminalEvent::Wake)),
+                What::Input(s) => {
+                    events
+                        .iter()
+                        .filter(|e| matches!(e, TerminalEvent::Key(k) if k.mode.is_empty() && matches!(k.name, KeyName::Char(c) if c != '~')))
+                        .count()
+                        >= s.chars().count()
+                }
+                What::Winch => events.iter().any(|e| matches!(e, TerminalEvent::Resize(_))),
+            };
+            let t0 = Instant::now();
+            let mut polls = 0u32;
+            while !satisfied(&events) {
+                if t0.elapsed() > Duration::from_secs(2) {
+                    if term.frames_pending() > 0 {
+                        sess.peer.state.stalled.store(false, Ordering::Relaxed);
+                        let what = match round.what {
+                            What::Wake { .. } => "wake/not-delivered-while-output-pending",
+                            What::Input(_) => "input/not-delivered-while-output-pending",
+                            What::Winch => "signal/winch-not-delivered-while-output-pending",
+                        };
+                        return Err(Fail::new(
+                            what,
+                            format!(
+                                "round {ri} ({:?}): output is pending (the terminal does not drain it) and {polls} polls with a zero timeout over 2 s did not deliver the event(s) of this round; events so far {:?}",
+                                round, events
+                            ),
+                        ));
+                    }
+                    break;
+                }
+                polls += 1;
+                match term.poll(Some(Duration::ZERO)) {
+                    Ok(Some(ev)) => events.push(ev),
+                    Ok(None) => {}
+                    Err(e) => {
+                        return Err(Fail::new("session/poll-error", format!("round {ri}: poll failed with output pending: {e:?}")));
+                    }
+                }
+            }
+            if satisfied(&events) && term.frames_pending() > 0 {
+                labels.push("delivered-while-output-still-pending");
+            }
+            sess.peer.state.stalled.store(false, Ordering::Relaxed);
         }
         // drain: everything that happened must surface in the current or the next polls.
         // Wake bytes, signal bytes and tty input are already in their pipes when the calls
@@ -396,6 +459,7 @@ fn run_session(case: &Case) -> Result<(Pass, bool), Fail> {
     // ---- exit path
     let da1_before = sess.peer.state.da1_answered.load(Ordering::Relaxed);
     let mut expect_epilogue = true;
+    let mut signal_in_dispose: Option<Rc<Cell<bool>>> = None;
     match case.exit {
         Exit::Drop => {}
         Exit::DropPending(n) => {
@@ -460,7 +524,23 @@ fn run_session(case: &Case) -> Result<(Pass, bool), Fail> {
         Exit::MasterClosed => {
             expect_epilogue = false;
         }
+        Exit::SignalInDispose { which, point } => {
+            let sig = [libc::SIGTERM, libc::SIGINT, libc::SIGQUIT][which as usize % 3];
+            let target = POINTS[point as usize % POINTS.len()];
+            let fired = Rc::new(Cell::new(false));
+            let fired2 = fired.clone();
+            unix_verif_hooks::set_point_hook(Some(Box::new(move |p| {
+                if !fired2.get() && p == target {
+                    fired2.set(true);
+                    unsafe {
+                        libc::raise(sig);
+                    }
+                }
+            })));
+            signal_in_dispose = Some(fired);
+        }
     }
+    let _hook_guard = HookGuard;
     let Session { pty, peer, before } = sess;
     let received_before_drop = peer.received_len();
     if case.exit == Exit::MasterClosed {
@@ -494,6 +574,12 @@ fn run_session(case: &Case) -> Result<(Pass, bool), Fail> {
     let t0 = Instant::now();
     drop(term);
     let drop_time = t0.elapsed();
+    unix_verif_hooks::set_point_hook(None);
+    if let Some(fired) = signal_in_dispose {
+        if fired.get() {
+            labels.push("termination-signal-during-release");
+        }
+    }
     ensure!(
         drop_time < Duration::from_secs(5),
         "exit/drop-hangs",
@@ -503,7 +589,13 @@ fn run_session(case: &Case) -> Result<(Pass, bool), Fail> {
     // everything written before the final sync request has been written once drop returned;
     // wait for the peer to have seen the DA1 request
     let t1 = Instant::now();
-    while peer.state.da1_answered.load(Ordering::Relaxed) == da1_before && t1.elapsed() < Duration::from_secs(2) {
+    let seen_final_request = || {
+        let received = peer.received();
+        contains(&received[received_before_drop.min(received.len())..], b"\x1b[c")
+    };
+    while !(peer.state.da1_answered.load(Ordering::SeqCst) != da1_before && seen_final_request())
+        && t1.elapsed() < Duration::from_secs(2)
+    {
         std::thread::sleep(Duration::from_micros(300));
     }
     let after = pty.termios().map_err(|e| inc(format!("tcgetattr: {e}")))?;
@@ -540,7 +632,12 @@ fn run_session(case: &Case) -> Result<(Pass, bool), Fail> {
 }
 
 fn finish(labels: Vec<&'static str>, inside_poll: bool, master_closed: bool) -> Pass {
-    let mut p = Pass::new(inside_poll || labels.contains(&"drop-with-pending-output") || labels.contains(&"output-pending"))
+    let mut p = Pass::new(
+        inside_poll
+            || labels.contains(&"drop-with-pending-output")
+            || labels.contains(&"output-pending")
+            || labels.contains(&"termination-signal-during-release"),
+    )
         .label_if(inside_poll, "placed-inside-poll")
         .label_if(master_closed, "master-closed-first");
     let mut seen = std::collections::BTreeSet::new();
@@ -576,7 +673,7 @@ impl Property for C17 {
         ];
         let timeout = prop_oneof![3 => Just(Timeout::Zero), 2 => Just(Timeout::Ms50), 2 => Just(Timeout::Infinite)];
         let pending = prop_oneof![4 => Just(0usize), 2 => 1usize..2000, 1 => 5000usize..40000];
-        let round = (what, place, timeout, pending).prop_map(|(what, place, timeout, pending_output)| {
+        let round = (what, place, timeout, pending, any::<bool>()).prop_map(|(what, place, timeout, pending_output, hold)| {
             // a poll without timeout blocks in its first select unless output is pending: its
             // trigger must be placed where that poll can reach it
             let place = match (timeout, place) {
@@ -584,7 +681,8 @@ impl Property for C17 {
                 (Timeout::Infinite, Place::At { point, .. }) => Place::At { point, iter: 0 },
                 (_, p) => p,
             };
-            Round { what, place, timeout, pending_output }
+            let hold_stall = hold && pending_output > 4096 && timeout != Timeout::Infinite;
+            Round { what, place, timeout, pending_output, hold_stall }
         });
         let exit = prop_oneof![
             3 => Just(Exit::Drop),
@@ -593,6 +691,7 @@ impl Property for C17 {
             1 => (0u8..4).prop_map(Exit::RunQuit),
             2 => (0u8..3).prop_map(Exit::RenderErr),
             2 => (0u8..3).prop_map(Exit::Signal),
+            2 => (0u8..3, 0u8..7).prop_map(|(which, point)| Exit::SignalInDispose { which, point }),
             1 => Just(Exit::MasterClosed),
         ];
         (proptest::collection::vec(round, 0..5), exit)
@@ -619,7 +718,7 @@ impl Property for C17 {
     }
 
     fn rule(&self) -> String {
-        "session = real SystemTerminal on a pseudo-terminal (one per worker process) with a scripted peer; 0-4 rounds, each: {1-3 concurrent wake calls from other threads | the peer types 1-6 characters | raise(SIGWINCH)} placed before the poll or at one of 7 named points (loop start, before/after select, before signal processing, before the waker read, before the tty read, loop end) of loop iteration 0-2 of a poll with timeout 0 / 50 ms / none, optionally with 1-40000 bytes of output pending (peer stalled above 4096); then drained with zero-timeout polls. Oracles: >=1 and <= #calls Wake events for wake rounds, typed characters delivered in order, >=1 Resize per SIGWINCH round, no spurious Wake. Exit path: drop | drop with pending output | Terminal::run handler error/quit at step k | run_render handler error at step k | SIGTERM/SIGINT/SIGQUIT (must surface as Error::Quit) | master closed first; afterwards tcgetattr on the slave must equal the snapshot taken before open and (master still open) the bytes received after the last application output must contain ESC[?1003l, ESC[?1006l, ESC[?1000l and ESC[?25h. non-trivial = a trigger placed strictly inside a poll, or output pending during a round or at release".into()
+        "session = real SystemTerminal on a pseudo-terminal (one per worker process) with a scripted peer; 0-4 rounds, each: {1-3 concurrent wake calls from other threads | the peer types 1-6 characters | raise(SIGWINCH)} placed before the poll or at one of 7 named points (loop start, before/after select, before signal processing, before the waker read, before the tty read, loop end) of loop iteration 0-2 of a poll with timeout 0 / 50 ms / none, optionally with 1-40000 bytes of output pending (above 4096 the peer is stalled, for 30 ms or -- finite timeouts, half of those rounds -- until the round's events have been delivered, which zero-timeout polls must achieve within 2 s although the output stays pending); then drained with zero-timeout polls. Oracles: >=1 and <= #calls Wake events for wake rounds, typed characters delivered in order, >=1 Resize per SIGWINCH round, no spurious Wake. Exit path: drop | drop with pending output | Terminal::run handler error/quit at step k | run_render handler error at step k | SIGTERM/SIGINT/SIGQUIT (must surface as Error::Quit) | SIGTERM/SIGINT/SIGQUIT raised at one of the 7 points of the first poll iteration inside drop | master closed first; afterwards tcgetattr on the slave must equal the snapshot taken before open and (master still open) the bytes received after the last application output must contain ESC[?1003l, ESC[?1006l, ESC[?1000l and ESC[?25h. non-trivial = a trigger placed strictly inside a poll or inside the release, or output pending during a round or at release".into()
     }
 
     fn assumptions(&self) -> Vec<String> {
